@@ -179,3 +179,11 @@ pub fn app_set_dr_mid(w: &World, rec: &OpRecord) -> Option<u8> {
         _ => None,
     })
 }
+
+/// Full-stack configuration: take (remove) the first recorded disagreement of one of the given kinds between what
+/// the MAC handed to the radio and what the real driver programmed into the chip.
+pub fn take_stack_alert(w: &World, kinds: &[&str]) -> Option<(&'static str, String, String)> {
+    let mut e = w.env.borrow_mut();
+    let i = e.stack_alerts.iter().position(|a| kinds.contains(&a.0))?;
+    Some(e.stack_alerts.remove(i))
+}
